@@ -52,6 +52,9 @@ type C14Case struct {
 	// UsedDst: the source is decoded into a receiver that already holds the second tensor (masked,
 	// lazily transposed) instead of a fresh one.
 	UsedDst bool `json:"used_dst,omitempty"`
+	// RecvMode (UsedDst only): bit 0 - the receiver is a column-major tensor; bit 1 - it is not lazily transposed (column-major receivers never are).
+	// (A decoder that recomputes or keeps anything of what the receiver was - its data order flag, say - shows here.)
+	RecvMode int `json:"recv_mode,omitempty"`
 }
 
 // ------------------------------------------------------------------------------------------------
@@ -310,6 +313,9 @@ func genC14(seed uint64) *C14Case {
 	cs.Build2 = []Op{b2}
 	cs.Multi = (cs.Format == "gob" && r.Intn(3) == 0) || (cs.Format == "npy" && r.Intn(4) == 0 && dt != "int64" && dt != "uint64")
 	cs.UsedDst = r.Intn(5) == 0
+	if cs.UsedDst {
+		cs.RecvMode = r.Intn(4)
+	}
 	cs.PipeCap = []int{1, 2, 3, 7, 16, 64, 256}[r.Intn(7)]
 	cs.MaxChunk = []int{1, 1, 2, 3, 5, 8, 64, 0}[r.Intn(8)]
 	cs.ZeroRead = []int{0, 0, 0, 9, 30}[r.Intn(5)]
@@ -318,6 +324,7 @@ func genC14(seed uint64) *C14Case {
 	cs.Direct = r.Intn(12) == 0 || huge
 	if huge {
 		cs.UsedDst = false
+		cs.RecvMode = 0
 		cs.Huge = true
 	}
 	return cs
@@ -556,6 +563,9 @@ func execC14(cs *C14Case, replay bool) *c14Result {
 	if (cs.Multi || cs.UsedDst) && len(cs.Build2) > 0 {
 		b2 := cs.Build2[0]
 		b2.Out = 901
+		if cs.UsedDst && !cs.Multi && cs.RecvMode&1 != 0 && b2.Mode == "row" {
+			b2.Mode = "col"
+		}
 		w.Exec(&b2)
 		if o := w.get(901); o != nil {
 			if cs.Multi {
@@ -563,7 +573,7 @@ func execC14(cs *C14Case, replay bool) *c14Result {
 			}
 			if cs.UsedDst {
 				rc := o.Clone().(*tensor.Dense)
-				if rc.Dims() >= 2 {
+				if rc.Dims() >= 2 && cs.RecvMode&3 == 0 { // (T of a column-major column vector panics: DESIGN.md 9.6)
 					rc.T()
 				}
 				if !rc.IsScalar() {
